@@ -323,7 +323,15 @@ pub fn run(ctx: &Ctx) -> i32 {
     // one OS thread on purpose: the cache is process-wide, so only a sequential driver makes the
     // sequence of cache states a function of the seed
     for run in 0..n {
-        let h = generate(run_seed(ctx.seed, STREAM, run));
+        let mut h = generate(run_seed(ctx.seed, STREAM, run));
+        if run == 0 {
+            // the extremes of the legal range once per batch: the largest block the code supports
+            // (a miss, later a hit), the smallest, and the last size whose K' is below the maximum
+            h.reqs.insert(0, Req { k: 56403, t: 1, data_seed: 0, jump_s: 0 });
+            h.reqs.insert(1, Req { k: 1, t: 1, data_seed: 0, jump_s: 0 });
+            h.reqs.push(Req { k: 56403, t: 1, data_seed: 1, jump_s: 0 });
+            h.reqs.push(Req { k: 55844, t: 1, data_seed: 0, jump_s: 0 });
+        }
         if run == 0 {
             sample = Some(json!({"requests": h.reqs.len(), "head": &h.reqs[..12.min(h.reqs.len())]}));
         }
